@@ -599,6 +599,7 @@ func genConnectExchange(g *Gen, tag string, prop string) *Plan {
 		sg.add(refsn.Pkt{Type: refsn.PUBLISH, TIT: refsn.TITShort, TopicID: refsn.ShortID("ab"), QoS: 0, Data: []byte("after")})
 		sg.gap(100, 500)
 	}
+	pol.NoWait = true // out-of-turn packets on purpose
 	p.Peers = []PeerPlan{{Name: "p1", Ops: sg.ops, Policy: pol}}
 	rcs := []byte{0, 0, 0, 1, 2, 3, 4, 5}
 	p.Broker.ConnackRC = rcs[g.Intn(len(rcs))]
@@ -684,7 +685,7 @@ func genC07(g *Gen, idx int) *Plan {
 	// finally a probe publish: if the session believes it is active this reaches the broker
 	sg.gap(400, 1500)
 	sg.add(refsn.Pkt{Type: refsn.PUBLISH, TIT: refsn.TITShort, TopicID: refsn.ShortID("zz"), QoS: 0, Data: []byte("probe")})
-	p.Peers = []PeerPlan{{Name: "p1", Ops: sg.ops, Policy: PeerPolicy{WillTopic: "w/t", WillMsg: []byte("bye")}}}
+	p.Peers = []PeerPlan{{Name: "p1", Ops: sg.ops, Policy: PeerPolicy{WillTopic: "w/t", WillMsg: []byte("bye"), NoWait: true}}}
 	if g.Bool(0.2) {
 		p.Broker.ConnackRC = byte(g.Range(1, 5))
 	}
@@ -741,7 +742,7 @@ func enumC07(tier string, idx int) *Plan {
 	}
 	sg.gap(600, 1200)
 	sg.add(refsn.Pkt{Type: refsn.PUBLISH, TIT: refsn.TITShort, TopicID: refsn.ShortID("zz"), QoS: 0, Data: []byte("probe")})
-	p.Peers = []PeerPlan{{Name: "p1", Ops: sg.ops, Policy: PeerPolicy{WillTopic: "w/t", WillMsg: []byte("bye")}}}
+	p.Peers = []PeerPlan{{Name: "p1", Ops: sg.ops, Policy: PeerPolicy{WillTopic: "w/t", WillMsg: []byte("bye"), NoWait: true}}}
 	p.Cfg.HorizonMs = sg.t + 7000
 	return p
 }
